@@ -23,7 +23,9 @@ Abstractions (the same as `Model/FlowTypes.lean` where they overlap):
   account-file hook groups (`hks`), the freshly generated key (`load`).
 
 GHOST state: `EpRec.ca`, what the CA of that endpoint holds for the account the record points to.
-It is written by the three `ghost…` functions and never read (`getEndpointM` hands the record out
+It advances when the CA answers 2xx AND when it processed a request whose answer was lost
+(`Ans.lost`: the client sees a cut connection, the CA's record has changed; applied by `exchange`).
+It is written by the `ghost…` functions and never read (`getEndpointM` hands the record out
 without it; theorem `ghost_not_read` in `Props/C11Indep.lean`).
 -/
 import AcmedVerif.Model.FlowTypes
@@ -141,12 +143,14 @@ def Account.ghostRegistered (a : Account) (e : EpName) (existing : Bool) : Accou
       { key := a.shared.currentKey,
         contacts := if existing then r.ca.contacts else some a.shared.contacts } }) a.endpoints }
 
-/-- GHOST: a keyChange request was answered 2xx: the CA now holds the key of the inner JWS. -/
+/-- GHOST: a keyChange request was answered 2xx — or processed and its answer lost —: the CA now
+holds the key of the inner JWS.  Also: the check after a refused keyChange (signed by the current
+key, `kid` = the account) was answered 2xx: the CA holds the current key. -/
 def Account.ghostKeyChanged (a : Account) (e : EpName) : Account :=
   { a with endpoints := modFirst e (fun r => { r with ca :=
       { r.ca with key := a.shared.currentKey } }) a.endpoints }
 
-/-- GHOST: a contact update was answered 2xx. -/
+/-- GHOST: a contact update was answered 2xx, or processed and its answer lost. -/
 def Account.ghostContactsUpdated (a : Account) (e : EpName) : Account :=
   { a with endpoints := modFirst e (fun r => { r with ca :=
       { r.ca with contacts := some a.shared.contacts } }) a.endpoints }
@@ -162,9 +166,19 @@ def Account.registered (a : Account) (e : EpName) (location : Url) (orders : Opt
   a.updateContactsHash e >>= fun a =>
   a.updateExternalAccountHash e
 
-/-- `update_account_key` after the 2xx answer (`acme_proto/account.rs:148`). -/
+/-- `update_account_key` after the 2xx answer to the keyChange request, or to the account query
+signed by the current key (`acme_proto/account.rs:164,185`). -/
 def Account.keyRolled (a : Account) (e : EpName) : Option Account :=
   (a.ghostKeyChanged e).updateKeyHash e
+
+/-- GHOST: what the CA contacted through `ep` did with a request it PROCESSED although its answer
+was lost (`Ans.lost`): a key roll-over ⇒ it holds the new key; a contact update ⇒ it holds the new
+contacts; anything else (a POST-as-GET; a newAccount request, which creates an account the record
+does not point to) ⇒ nothing for the account the record points to. -/
+def Account.ghostLost (a : Account) (ep : EpName) : ReqKind → Account
+  | .keyChange => a.ghostKeyChanged ep
+  | .accountUpdate => a.ghostContactsUpdated ep
+  | _ => a
 
 /-- `update_account_contacts` after the 2xx answer (`acme_proto/account.rs:103`). -/
 def Account.contactsUpdated (a : Account) (e : EpName) : Option Account :=
@@ -218,6 +232,8 @@ inductive Ans
   | okOther
   | acmeErr (ty : ErrClass)
   | otherErr
+  /-- as `otherErr` for the client; the CA had PROCESSED the request (`Flow.ExRes.lost`) -/
+  | lost
   deriving DecidableEq, Repr, Inhabited
 
 inductive MEv
@@ -275,12 +291,17 @@ def liftAcct (f : Account → Option Account) : MM Unit := fun s =>
   | some a => (.val (), { s with acct := a })
   | none => (.unknownEndpoint, s)
 
+/-- One logical exchange: consumes one scripted answer.  GHOST: an answer `lost` means the CA
+processed the request (`Account.ghostLost`); the value returned tells the caller nothing of it. -/
 def exchange (ep : EpName) (kind : ReqKind) (target : Target) (signer : KeyId) (kid : Url) :
     MM Ans := fun s =>
   match s.exs with
   | [] => (.stuck, s)
   | r :: rest =>
-    (.val r, { s with exs := rest, log := s.log ++ [.req ep kind target signer kid r] })
+    (.val r, { s with exs := rest, log := s.log ++ [.req ep kind target signer kid r],
+                      acct := match r with
+                        | .lost => s.acct.ghostLost ep kind
+                        | _ => s.acct })
 
 def hookGroup (ty : HookKind) : MM Bool := fun s =>
   match s.hks with
@@ -327,22 +348,56 @@ def updateAccountContacts (e : EpName) : MM Unit := do
   | .acmeErr .accountDoesNotExist => registerAccount e
   | _ => failAt .accountUpdate
 
-/-- `update_account_key` (`acme_proto/account.rs:111-154`): POST to `endpoint.dir.key_change`; the
-outer JWS is signed by the past key whose fingerprint the record of `e` carries, `kid` = the
-`account_url` of that record; the inner one by the current key. -/
-def updateAccountKey (e : EpName) : MM Unit := do
+/-- POST-as-GET to the account URL signed by the CURRENT key (`acme_proto/account.rs:158-167`):
+`set_data_builder_sync!(account, endpoint_name, b"")`, `kid` = the `account_url` of the record of `e`
+(read again from a clone of the account; nothing wrote it since `accountUrl` was read, `:123`).
+2xx ⇒ the roll-over is recorded as done; anything else ⇒ the error that led here. -/
+def checkNewKey (e : EpName) (accountUrl : Url) : MM Unit := do
+  let sh ← getShared
+  let p ← exchange e .accountProbe (.url accountUrl) sh.currentKey accountUrl
+  match p with
+  | .account _ | .okOther => do
+    liftAcct fun a => a.keyRolled e
+    saveAccount
+  | _ => failAt .keyChange
+
+/-- The roll-over request and what follows (`acme_proto/account.rs:173-189`): POST to
+`endpoint.dir.key_change`; the outer JWS is signed by `old` = the past key whose fingerprint the
+record of `e` carries, `kid` = `accountUrl` = the `account_url` of that record; the inner one by the
+current key.  `checkAfter` (5ce05e3 only): an ACME error other than accountDoesNotExist is followed by
+`checkNewKey`. -/
+def keyChangeStep (checkAfter : Bool) (e : EpName) (old : KeyId) (accountUrl : Url) : MM Unit := do
+  let r ← exchange e .keyChange (.dirKeyChange e) old accountUrl
+  match r with
+  | .account _ | .okOther => do
+    liftAcct fun a => a.keyRolled e
+    saveAccount
+  | .acmeErr .accountDoesNotExist => registerAccount e
+  | .acmeErr _ => if checkAfter then checkNewKey e accountUrl else failAt .keyChange
+  | _ => failAt .keyChange
+
+/-- Since 1fb1c1a / d9d2cda (`acme_proto/account.rs:136-172`): first a POST-as-GET to the account URL
+signed by `old`, `kid` = the account URL. -/
+def keyChangeChecked (e : EpName) (old : KeyId) (accountUrl : Url) : MM Unit := do
+  let p ← exchange e .accountProbe (.url accountUrl) old accountUrl
+  match p with
+  | .account _ | .okOther => keyChangeStep false e old accountUrl
+  | .acmeErr .accountDoesNotExist => keyChangeStep false e old accountUrl
+  | .acmeErr .sigRefused => checkNewKey e accountUrl
+  | _ => failAt .keyChange
+
+/-- `update_account_key` (`acme_proto/account.rs:111-190`): `old_key` = `get_past_key(&ep.key_hash)?`
+and `account_url` are read once, at the top (`:120-123`). -/
+def updateAccountKey (v : Variant) (e : EpName) : MM Unit := do
   let sh ← getShared
   let er ← getEndpointM e
   match sh.getPastKey er.keyHash with
   | none => failAt .pastKey
-  | some old => do
-    let r ← exchange e .keyChange (.dirKeyChange e) old er.accountUrl
-    match r with
-    | .account _ | .okOther => do
-      liftAcct fun a => a.keyRolled e
-      saveAccount
-    | .acmeErr .accountDoesNotExist => registerAccount e
-    | _ => failAt .keyChange
+  | some old =>
+    match v.rolloverCheck with
+    | .first => keyChangeChecked e old er.accountUrl
+    | .afterRefusal => keyChangeStep true e old er.accountUrl
+    | .none => keyChangeStep false e old er.accountUrl
 
 /-- `account.rs:208-210`: an external account is configured and its fingerprint is not the
 recorded one. -/
@@ -363,11 +418,11 @@ def synchronize (v : Variant) (e : EpName) : MM Unit := do
       (if v.bindingThenContacts && (contactsChanged && !keyChanged) then updateAccountContacts e
        else pure ())
     else if v.keyFirst then do
-      (if keyChanged then updateAccountKey e else pure ())
+      (if keyChanged then updateAccountKey v e else pure ())
       (if contactsChanged then updateAccountContacts e else pure ())
     else do
       (if contactsChanged then updateAccountContacts e else pure ())
-      (if keyChanged then updateAccountKey e else pure ())
+      (if keyChanged then updateAccountKey v e else pure ())
   else registerAccount e
 
 /-! ### The view from one endpoint (`Flow.Acc`, `Model/FlowTypes.lean:95-116`) -/
@@ -392,6 +447,7 @@ def Ans.abs : Ans → Flow.ExRes
   | .okOther => .ok .undecodable
   | .acmeErr ty => .acmeErr ty
   | .otherErr => .otherErr
+  | .lost => .lost
 
 def MEv.abs : MEv → Flow.Ev
   | .req _ kind _ signer _ ans => .exch kind (match kind with
